@@ -17,6 +17,9 @@ enum MOp {
 struct HOp {
     op: MOp,
     call: usize,
+    /// The call did not return (it unwound): it may or may not have taken effect, and what it
+    /// would have returned is unknown.
+    optional: bool,
 }
 
 fn addr_of(uid: u32) -> usize {
@@ -28,6 +31,10 @@ fn addr_of(uid: u32) -> usize {
 }
 
 fn precedes(a: &Call, b: &Call, weak: bool) -> bool {
+    if !a.completed {
+        // an operation that unwound has no response event: only program order remains
+        return a.tid == b.tid && a.th == b.th && a.inv < b.inv;
+    }
     if a.tid == b.tid && a.th == b.th {
         return a.resp < b.inv;
     }
@@ -54,11 +61,16 @@ fn linearizable(ops: &[HOp], calls: &[Call], init: u32, weak: bool) -> bool {
             }
         }
     }
-    let full: u64 = if n == 64 { !0 } else { (1u64 << n) - 1 };
+    let mut mandatory: u64 = 0;
+    for (i, o) in ops.iter().enumerate() {
+        if !o.optional {
+            mandatory |= 1 << i;
+        }
+    }
     let mut seen: std::collections::HashSet<(u64, u32)> = std::collections::HashSet::new();
     let mut stack: Vec<(u64, u32)> = vec![(0, init)];
     while let Some((done, st)) = stack.pop() {
-        if done == full {
+        if done & mandatory == mandatory {
             return true;
         }
         if !seen.insert((done, st)) {
@@ -77,6 +89,14 @@ fn linearizable(ops: &[HOp], calls: &[Call], init: u32, weak: bool) -> bool {
                     }
                 }
                 MOp::Write { arg } => Some(*arg),
+                MOp::Swap { arg, .. } if ops[i].optional => Some(*arg),
+                MOp::Cas { exp_addr, arg, .. } if ops[i].optional => {
+                    if addr_of(st) == *exp_addr {
+                        Some(*arg)
+                    } else {
+                        Some(st)
+                    }
+                }
                 MOp::Swap { arg, ret } => {
                     if *ret == st {
                         Some(*arg)
@@ -141,8 +161,8 @@ pub fn check_histories(w: &World, weak: bool, stats: &mut HistStats) -> Option<(
         let calls: Vec<Call> = w
             .hist
             .iter()
-            .filter(|c| c.c as usize == ci && c.completed)
-            .filter(|c| !matches!(c.kind, CallKind::DropCont | CallKind::CacheLoad | CallKind::AccessLoad))
+            .filter(|c| c.c as usize == ci && (c.completed || matches!(c.kind, CallKind::Swap | CallKind::Cas)))
+            .filter(|c| !matches!(c.kind, CallKind::DropCont))
             .cloned()
             .collect();
         if calls.is_empty() {
@@ -156,7 +176,7 @@ pub fn check_histories(w: &World, weak: bool, stats: &mut HistStats) -> Option<(
             }
         }
         for c in calls.iter() {
-            let reads = !matches!(c.kind, CallKind::Store);
+            let reads = !matches!(c.kind, CallKind::Store) && c.completed;
             if reads && !written.contains(&c.ret) {
                 let elsewhere = w.hist.iter().any(|o| o.c as usize != ci && o.arg == c.ret && o.arg != 0)
                     || w.conts.iter().enumerate().any(|(j, e)| j != ci && e.init_uid == c.ret && c.ret != 0);
@@ -184,7 +204,12 @@ pub fn check_histories(w: &World, weak: bool, stats: &mut HistStats) -> Option<(
             let mut v = Vec::new();
             for (i, c) in calls.iter().enumerate() {
                 let op = match c.kind {
-                    CallKind::Load | CallKind::LoadFull | CallKind::RcuSeen | CallKind::IntoInner => {
+                    CallKind::Load
+                    | CallKind::LoadFull
+                    | CallKind::RcuSeen
+                    | CallKind::IntoInner
+                    | CallKind::CacheLoad
+                    | CallKind::AccessLoad => {
                         if !keep_reads {
                             continue;
                         }
@@ -199,7 +224,11 @@ pub fn check_histories(w: &World, weak: bool, stats: &mut HistStats) -> Option<(
                     },
                     _ => continue,
                 };
-                v.push(HOp { op, call: i });
+                v.push(HOp {
+                    op,
+                    call: i,
+                    optional: !c.completed,
+                });
             }
             v
         };
